@@ -50,6 +50,12 @@ type AppNode struct {
 	AppendQ []*pb.Message
 	ApplyQ  []*pb.Message
 
+	// fsync modelling: writes the contract does not require to be synced
+	// (Ready.MustSync == false; MsgStorageAppend without responses) may be
+	// lost by a crash. image = what is certainly on stable storage.
+	image    *diskImage
+	unsynced bool
+
 	// durable application state
 	AppliedDurable uint64
 	ConfAt         map[uint64]*pb.ConfState // conf state as of index (only at change points)
@@ -150,6 +156,57 @@ func (c *Cluster) raftConfig(n *AppNode, applied uint64) *raft.Config {
 	}
 }
 
+type diskImage struct {
+	hs          *pb.HardState
+	snap        *pb.Snapshot
+	ents        []*pb.Entry
+	cidx, cterm uint64
+	applied     uint64
+	confAt      map[uint64]*pb.ConfState
+}
+
+func (n *AppNode) takeImage() {
+	hs, _, _ := n.St.InitialState()
+	snap, _ := n.St.Snapshot()
+	fi, _ := n.St.FirstIndex()
+	li, _ := n.St.LastIndex()
+	im := &diskImage{hs: hs, snap: snap, cidx: fi - 1, applied: n.AppliedDurable, confAt: map[uint64]*pb.ConfState{}}
+	im.cterm, _ = n.St.Term(fi - 1)
+	if li >= fi {
+		im.ents, _ = n.St.Entries(fi, li+1, noLimitU)
+	}
+	for k, v := range n.ConfAt {
+		im.confAt[k] = v
+	}
+	n.image = im
+	n.unsynced = false
+}
+
+// storageFromImage rebuilds a MemoryStorage holding exactly the synced image.
+func storageFromImage(im *diskImage) *raft.MemoryStorage {
+	ms := raft.NewMemoryStorage()
+	si := im.snap.GetMetadata().GetIndex()
+	if im.cidx == si {
+		if si != 0 || im.snap.GetMetadata().GetConfState() != nil {
+			_ = ms.ApplySnapshot(im.snap)
+		}
+	} else {
+		_ = ms.ApplySnapshot(&pb.Snapshot{Metadata: &pb.SnapshotMetadata{Index: new(im.cidx), Term: new(im.cterm), ConfState: im.snap.GetMetadata().GetConfState()}})
+	}
+	_ = ms.Append(im.ents)
+	if si > im.cidx {
+		if _, err := ms.CreateSnapshot(si, im.snap.GetMetadata().GetConfState(), nil); err != nil {
+			panic("harness: rebuilding storage image: " + err.Error())
+		}
+	}
+	if im.hs != nil {
+		_ = ms.SetHardState(im.hs)
+	}
+	return ms
+}
+
+func jDiskOfImage(im *diskImage) JDisk { return jDisk(storageFromImage(im)) }
+
 // ---- event emission ----------------------------------------------------------
 
 func (c *Cluster) emit(ev *Event, n *AppNode) {
@@ -194,6 +251,11 @@ func (c *Cluster) jApp(n *AppNode) JApp {
 	idx, cs := n.confAsOf(n.AppliedDurable)
 	a.LastConfIdx = idx
 	a.AppConf = jConf(cs)
+	a.Created = n.Created
+	if n.unsynced && n.image != nil {
+		sd := jDiskOfImage(n.image)
+		a.SD = &sd
+	}
 	return a
 }
 
@@ -288,6 +350,7 @@ func (c *Cluster) Boot(id uint64) {
 		n.ConfAt[0] = confStateOf(jConf(nil))
 	}
 	n.Created = true
+	n.takeImage()
 	ev := &Event{Act: "Boot"}
 	p := call(func() {
 		rn, err := raft.NewRawNode(c.raftConfig(n, 0))
@@ -436,8 +499,18 @@ func (c *Cluster) Do(s Step) bool {
 			return false
 		}
 		n.crashVolatile()
+		if s.Ok && n.unsynced && n.image != nil {
+			// power loss: writes that were never synced are gone
+			n.St = storageFromImage(n.image)
+			n.AppliedDurable = n.image.applied
+			n.ConfAt = map[uint64]*pb.ConfState{}
+			for k, v := range n.image.confAt {
+				n.ConfAt[k] = v
+			}
+			n.unsynced = false
+		}
 		c.record(s)
-		c.emit(&Event{Act: "Crash"}, n)
+		c.emit(&Event{Act: "Crash", A: JArgs{Ok: s.Ok}}, n)
 		return true
 	case "Restart":
 		return c.doRestart(s)
@@ -664,6 +737,11 @@ func (c *Cluster) doSyncStep(s Step) bool {
 		}
 		c.persistSnapAndHS(n, nil, rd.HardState)
 		n.Phase = "hs"
+		if rd.MustSync {
+			n.takeImage()
+		} else if len(rd.Entries) > 0 || !raft.IsEmptyHardState(rd.HardState) {
+			n.unsynced = true
+		}
 	case "PersistSnapshot":
 		if async || n.Phase != "ready" || raft.IsEmptySnap(rd.Snapshot) {
 			return false
@@ -676,6 +754,7 @@ func (c *Cluster) doSyncStep(s Step) bool {
 		})
 		ev.A.Ents = jEntries(rd.Entries)
 		n.Phase = "hs"
+		n.takeImage()
 	case "Send":
 		if async {
 			if n.Phase != "ready" {
@@ -708,6 +787,9 @@ func (c *Cluster) doSyncStep(s Step) bool {
 		}
 		p = c.applyEntries(n, rd.CommittedEntries, ev)
 		n.Phase = "applied"
+		if !n.unsynced {
+			n.takeImage()
+		}
 	case "Advance":
 		if async || n.Phase != "applied" {
 			return false
@@ -735,13 +817,17 @@ func (c *Cluster) applyEntries(n *AppNode, ents []*pb.Entry, ev *Event) string {
 				if err := proto.Unmarshal(e.GetData(), &cc); err != nil {
 					panic(err)
 				}
-				cs = n.RN.ApplyConfChange(n.validated(cc.AsV2()))
+				if v := n.validated(cc.AsV2()); v != nil {
+					cs = n.RN.ApplyConfChange(v)
+				}
 			case pb.EntryConfChangeV2:
 				var cc pb.ConfChangeV2
 				if err := proto.Unmarshal(e.GetData(), &cc); err != nil {
 					panic(err)
 				}
-				cs = n.RN.ApplyConfChange(n.validated(&cc))
+				if v := n.validated(&cc); v != nil {
+					cs = n.RN.ApplyConfChange(v)
+				}
 			}
 			if cs != nil {
 				n.ConfAt[e.GetIndex()] = proto.Clone(cs).(*pb.ConfState)
@@ -753,10 +839,12 @@ func (c *Cluster) applyEntries(n *AppNode, ents []*pb.Entry, ev *Event) string {
 	})
 }
 
-// validated implements the documented apply-time veto: a conf change that is
-// not applicable to the node's current configuration is cancelled (turned
-// into a no-op change) instead of being handed to ApplyConfChange, which
-// would panic on it. Applicability is decided by the library's own
+// validated implements the documented apply-time veto ("The app must call
+// ApplyConfChange when it applies a configuration change, except when it
+// decides to reject the configuration change, in which case no call must take
+// place"): a conf change that is not applicable to the node's current
+// configuration is rejected (nil: no call) instead of being handed to
+// ApplyConfChange, which would panic on it. Applicability is decided by the library's own
 // confchange.Changer on a scratch tracker restored from the current ConfState.
 func (n *AppNode) validated(cc *pb.ConfChangeV2) *pb.ConfChangeV2 {
 	cur := n.RN.Status().Config
@@ -775,7 +863,7 @@ func (n *AppNode) validated(cc *pb.ConfChangeV2) *pb.ConfChangeV2 {
 		}
 	}
 	if err != nil {
-		return &pb.ConfChangeV2{Changes: []*pb.ConfChangeSingle{{Type: pb.ConfChangeUpdateNode.Enum(), NodeId: new(uint64(0))}}}
+		return nil
 	}
 	return cc
 }
@@ -821,6 +909,15 @@ func (c *Cluster) doAppendThread(s Step, stages int) bool {
 		}
 	})
 	if p == "" {
+		// "All writes performed in service of a MsgStorageAppend must be durable
+		// before response messages are delivered. However, if the
+		// MsgStorageAppend carries no response messages, durability is not
+		// required."
+		if len(m.GetResponses()) > 0 {
+			n.takeImage()
+		} else {
+			n.unsynced = true
+		}
 		var out []*pb.Message
 		for _, r := range m.GetResponses() {
 			if r.GetTo() == n.ID {
@@ -895,6 +992,9 @@ func (c *Cluster) doSnapshot(s Step) bool {
 		return false
 	}
 	jc := jConf(cs)
+	if !n.unsynced {
+		n.takeImage()
+	}
 	c.record(s)
 	c.emit(&Event{Act: "Snapshot", A: JArgs{K: s.K, Conf: &jc}}, n)
 	return true
@@ -912,6 +1012,9 @@ func (c *Cluster) doCompact(s Step) bool {
 	}
 	if err := n.St.Compact(s.K); err != nil {
 		return false
+	}
+	if !n.unsynced {
+		n.takeImage()
 	}
 	c.record(s)
 	c.emit(&Event{Act: "Compact", A: JArgs{K: s.K}}, n)
